@@ -53,6 +53,8 @@ def scenarios():
         "missing-file": ({"other.xsd": VALID_XSD}, "nope.xsd", False, "locate-input"),
         "directory-as-input": ({"adir/inner.xsd": VALID_XSD}, "adir", False, "locate-input"),
         "imported-sibling-not-utf8": ({"pay.wsdl": wsdl(), "shared.xsd": b"\xff\xfe\x00<xs:schema/>"}, "pay.wsdl", False, "read-siblings"),
+        "input-not-utf8-latin1": ({"latin.xsd": VALID_XSD.replace("<xs:schema", "<!-- caf\u00e9 --><xs:schema").encode("latin-1")}, "latin.xsd", False, "read-input"),
+        "input-utf16": ({"wide.xsd": VALID_XSD.encode("utf-16")}, "wide.xsd", False, "read-input"),
         "malformed-xml": ({"bad.xsd": VALID_XSD.replace("</xs:schema>", "")}, "bad.xsd", False, "parse"),
         "unresolved-import": ({"pay.wsdl": wsdl(import_loc="gone.xsd"), "shared.xsd": TYPES_XSD}, "pay.wsdl", False, "import"),
         "unresolved-reference": ({"pay.wsdl": wsdl(part_element="tns:NoSuchElement"), "shared.xsd": TYPES_XSD}, "pay.wsdl", False, "resolve"),
@@ -239,7 +241,7 @@ def c17(tier):
     cov = {
         "evaluations": runs,
         "distinct_nontrivial": len(cells),
-        "rule": "full matrix: 14 input scenarios (6 succeed, among them upper-case, double and missing file extensions; 8 fail at the stages locate-input, read-siblings, parse, import, resolve, "
+        "rule": "full matrix: 16 input scenarios (6 succeed, among them upper-case, double and missing file extensions; 10 fail at the stages locate-input, read-input (not UTF-8), read-siblings, parse, import, resolve, "
                 "binding) x 6 path spellings/working directories (a symbolic link in another directory under another name with linked siblings, absolute from an unrelated cwd, dir/name from the parent, ./name and bare "
                 "name from the input directory, ../in/name from a sibling directory) x output {--output absolute, --output relative to cwd, "
                 "default; for two of the spellings also --output with another extension, with none and with two, each next to a "
